@@ -171,7 +171,8 @@ OnKill(s, new) ==                         \* Process.on_kill: status := text; fu
   IN Then(FutSet(s2, "killed", new.val), LAMBDA t : Hook(t, "on_kill"))
 
 OnEntering(s, new) ==
-  CASE new.label = "RUNNING"  -> Hook(s, "on_run")
+  CASE new.label = "CREATED"  -> Hook(s, "on_create")          \* (construction) creation time, uuid, inputs parsed and validated
+    [] new.label = "RUNNING"  -> Hook(s, "on_run")
     [] new.label = "WAITING"  -> Hook(s, "on_wait")
     [] new.label = "FINISHED" -> OnFinish(s, new)
     [] new.label = "EXCEPTED" -> OnExcept(s, new)
@@ -189,7 +190,7 @@ Tolerated == {"ConnectionClosed", "ChannelInvalidStateError", "TimeoutError"}
 Broadcast(s, last) ==
   IF ~s.comm THEN Ok(s, None)
   ELSE LET h == Hook(s, "bcast") IN
-       IF h.exc = NoExc THEN Ok(Note(h.s, <<"bcast", "state_changed", last, s.st>>), None)
+       IF h.exc = NoExc THEN Ok(Note(h.s, <<"bcast", "state_changed", IF last = "NONE" THEN None ELSE last, s.st>>), None)
        ELSE IF h.exc \in Tolerated THEN Ok(h.s, None) ELSE h
 
 OnEnteredHooks(s) ==                      \* s.st is already the new label
@@ -248,7 +249,9 @@ ReleaseWait(s) == IF "F7" \in Fixes /\ s.wf.st = "pending"
                   THEN Wake([s EXCEPT !.wf = [st |-> "result", val |-> "NULL", cookie |-> 0]], "awaitWF") ELSE s
 
 ExitCurrent(s, new) ==                    \* _exit_current_state
-  IF new.label \notin Allowed(s.st) THEN Err(s, "RuntimeError")
+  IF s.st = "NONE"                          \* being constructed: nothing to exit, only the initial state may be entered
+  THEN (IF new.label = "CREATED" THEN Ok(s, None) ELSE Err(s, "RuntimeError"))
+  ELSE IF new.label \notin Allowed(s.st) THEN Err(s, "RuntimeError")
   ELSE LET a == IF s.closed THEN Ok(s, None)       \* close() dropped the event callbacks
                 ELSE Then(OnExiting(s), LAMBDA t : Hook(t, "cb_exiting"))
        IN IF a.exc # NoExc THEN a
@@ -258,7 +261,9 @@ EnterNext(s, new) ==                      \* _enter_next_state
   LET last == s.st
       \* known finding D11: close() dropped the event callbacks, a later transition (only reachable when a
       \* termination hook raises) changes the label but neither the future nor the listeners
+      \* (during construction only the process's own callbacks exist: nobody else holds a reference yet)
       a == IF s.closed THEN Ok(Dev(s, "D11"), None)
+           ELSE IF last = "NONE" THEN OnEntering(s, new)
            ELSE Then(OnEntering(s, new), LAMBDA t : Hook(t, "cb_entering"))
   IN IF a.exc # NoExc THEN a ELSE
      LET s0 == IF new.label = "WAITING"                                          \* next_state.do_enter()
@@ -270,6 +275,7 @@ EnterNext(s, new) ==                      \* _enter_next_state
                            !.mon.resumed = IF new.label = "WAITING" THEN FALSE ELSE @,
                            !.bad = IF last \in Terminal THEN @ \cup {"leftTerminal"} ELSE @]
      IN IF s1.closed THEN Ok(s1, None)
+        ELSE IF last = "NONE" THEN OnEntered(s1, last)
         ELSE Then(OnEntered(s1, last), LAMBDA t : Hook(Note(t, <<"enter", last, new.label>>), "cb_entered"))
 
 Finally(s) == [s EXCEPT !.failing = FALSE, !.transitioning = FALSE]
@@ -297,6 +303,7 @@ TransitionTo(s, new) ==
        IN IF r.exc = NoExc THEN Ok(Finally(r.s), None)
           ELSE LET s1 == [r.s EXCEPT !.transitioning = FALSE] IN
                IF s1.failing THEN Err(Finally(s1), r.exc)
+               ELSE IF r.ret = "CREATED" THEN Err(Finally(s1), r.exc)   \* transition_failed: "if we are creating, then reraise"
                ELSE IF "F9" \in Fixes /\ init \in Terminal
                THEN Err(Finally(s1), r.exc)          \* transition_failed: a terminated process stays as it is
                ELSE \* Process.transition_failed: while creating re-raise, otherwise go to EXCEPTED
@@ -553,8 +560,9 @@ Advance(s) ==
 (* ----------------------------------------------------------------------------------------------- *)
 (* specification                                                                                   *)
 (* ----------------------------------------------------------------------------------------------- *)
-InitS(pi, pl) ==
-  [pi |-> pi, pl |-> pl, st |-> "CREATED", cur |-> NewState("CREATED", 1, <<>>, <<>>, None, FALSE),
+\* Process.__init__: the members before the metaclass enters the initial state
+FreshS(pi, pl) ==
+  [pi |-> pi, pl |-> pl, st |-> "NONE", cur |-> NoState, born |-> FALSE,
    stepping |-> FALSE, transitioning |-> FALSE, failing |-> FALSE,
    pausedF |-> "none", status |-> None, preStatus |-> None,
    acts |-> <<>>, pausing |-> 0, killing |-> 0, intr |-> 0,
@@ -563,27 +571,37 @@ InitS(pi, pl) ==
    closed |-> FALSE, cleaned |-> 0, outputs |-> <<>>,
    awt |-> [i \in 1..Len(Progs[pi].awt) |-> [key |-> Progs[pi].awt[i], st |-> "pending", val |-> None, reg |-> FALSE, made |-> FALSE]],
    awaiting |-> {}, watched |-> {}, ctx |-> <<>>,
-   comm |-> WithComm, subs |-> WithComm, rpcs |-> <<>>,
+   comm |-> WithComm, subs |-> FALSE, rpcs |-> <<>>,
    task |-> [pc |-> "top", k |-> 0, fn |-> 0, wfn |-> 0, woken |-> FALSE, err |-> None],
    sched |-> <<>>, occ |-> [h \in PlanHooks |-> 0],
-   \* constructing a process with a communicator announces state_changed.None.created
-   log |-> IF WithComm THEN << <<"bcast", "state_changed", None, "CREATED">> >> ELSE <<>>,
+   log |-> <<>>,
    bad |-> {}, dev |-> {}, snap |-> [has |-> FALSE], restores |-> 0,
    mon |-> [killAcc |-> FALSE, killTexts |-> {}, cancelled |-> FALSE, lastPlay |-> FALSE,
             resumed |-> FALSE, resumeVal |-> None, expect |-> <<>>]]
+
+\* StateMachineMeta.__call__: __init__, transition_to(create_initial_state()), init().  A failure while the initial state is
+\* entered (on_create: input validation, user override; the first state_changed announcement) propagates to the caller
+\* of the constructor: no process exists ("ctor-raise", born stays FALSE and nothing is ever enabled).
+\* init(): subscribe to the communicator (RPC, broadcast), try_killing done-callback on the future.
+Created == NewState("CREATED", 1, <<>>, <<>>, None, FALSE)
+Construct(s) ==
+  LET r == TransitionTo(s, Created) IN
+  IF r.exc # NoExc THEN Note(r.s, <<"ctor-raise", r.exc>>)
+  ELSE [r.s EXCEPT !.born = TRUE, !.subs = s.comm]
+InitS(pi, pl) == Construct(FreshS(pi, pl))
 
 \* The running instance is abandoned and the bundle loaded in a fresh event loop (recreate_from + init()):
 \* persisted members from the bundle, runtime members as after construction, a new stepping task.
 \* Events of the abandoned instance after the checkpoint do not count (log cut at the checkpoint).
 Restore(s) ==
   LET b == s.snap IN
-  [InitS(s.pi, s.pl) EXCEPT !.st = b.st, !.cur = b.cur, !.pausedF = b.pausedF, !.status = b.status,
+  [FreshS(s.pi, s.pl) EXCEPT !.born = TRUE, !.subs = s.comm, !.st = b.st, !.cur = b.cur, !.pausedF = b.pausedF, !.status = b.status,
                             !.preStatus = b.preStatus, !.fut = b.fut, !.outputs = b.outputs,
                             !.log = Append(SubSeq(s.log, 1, b.nlog), <<"restored">>),
                             !.occ = s.occ, !.snap = b, !.restores = s.restores + 1, !.mon.expect = b.expect]
 
 Init == /\ \E pi \in 1..Len(Progs), pl \in 1..Len(Plans) : S = InitS(pi, pl)
-        /\ ready = <<"task">> /\ budget = K
+        /\ ready = (IF S.born THEN <<"task">> ELSE <<>>) /\ budget = K
 
 Flush(s) == [s EXCEPT !.sched = <<>>]
 
@@ -656,7 +674,7 @@ StepCallSoon(s, rdy, kind) == [s |-> Note(s, <<"callsoon", kind>>), rdy |-> Appe
 StepRun(s, rdy)         == LET s1 == Handle(s, Head(rdy)) IN [s |-> Flush(s1), rdy |-> Tail(rdy) \o s1.sched]
 
 Env(r)  == S' = r.s /\ ready' = r.rdy /\ budget' = budget - 1
-Offered(kind) == kind \in Alphabet /\ budget > 0
+Offered(kind) == kind \in Alphabet /\ budget > 0 /\ S.born
 
 EnvKill(text)     == Offered("kill") /\ Env(StepKill(S, ready, text))
 EnvPause(text)    == Offered("pause") /\ Env(StepPause(S, ready, text))
